@@ -252,6 +252,14 @@ where
             return self.interp_array_into_1d(xs_1d, ys_1d, buffer_d);
         }
 
+        let expect = self.get_buffer_shape(xs.raw_dim());
+        assert!(
+            buffer.raw_dim() == expect,
+            "buffer has the wrong shape, expected: {:?}, got: {:?}",
+            expect.into_pattern(),
+            buffer.dim()
+        );
+
         for (index, &x) in xs.indexed_iter() {
             let current_dim = index.clone().into_dimension();
             let y = *ys
